@@ -325,6 +325,10 @@ func enumerate(c *ev.Ctx, m *model, implemented []uint16) (*gen, []string) {
 			}
 		}
 	}
+	// Part 9: the default lists as a configuration value (defaults.go): client lists {nil, all rotations of the 16 default
+	// suites and of their reversal, the 22 table suites both ways, three short lists} x server lists {nil, 3 explicit
+	// 16-suite lists} x preference flag x key x {TLS 1.2, 1.1, 1.3}.
+	g.part9()
 	return g, notes
 }
 
@@ -372,9 +376,10 @@ func main() {
 		c.Rule("a configuration = (client [min,max], server [min,max], server key type(s): one chain or several chains in Config.Certificates order, served directly or by a GetCertificate callback, client/server CipherSuites, ForceSuites, PreferServerCipherSuites, client/server CurvePreferences, client/server NextProtos, tickets mode, ExtendedMasterSecret, MITM downgrade target); distinct = distinct canonical configuration; non-trivial = the server produced a ServerHello")
 		c.Assume(
 			"reference negotiation written from RFC 8446 §4.1.3/§4.2.1, RFC 5246, RFC 7301 §3.2, RFC 5077, the IANA suite names and the tls.Config doc comments",
-			"default curve set is {X25519,P-256,P-384,P-521}; default pre-1.3 suite set is tls.CipherSuites() minus the TLS 1.3 suites (order undocumented: membership only)",
-			"exact suite prediction TLS<=1.2 only where the documented rule is unambiguous: explicit list of the preferring side, no AES-GCM-vs-ChaCha20 choice under client preference; with several chains the rule is judged among the suites usable with the chain presented",
-			"TLS 1.3 suite: first suite of the preferring side's list the other side supports - the client's order as read from the ClientHello on the wire, or the server's explicit CipherSuites order - after the documented AES-GCM reordering (server preference: the ClientHello does not start with an AES-GCM suite; client preference: this machine lacks AES+CLMUL instructions, read from golang.org/x/sys/cpu); a nil server list under server preference has no documented order (membership only)",
+			"default curve set is {X25519,P-256,P-384,P-521}; default pre-1.3 suite set is tls.CipherSuites() minus the TLS 1.3 suites; the default lists are a configuration value like any other: their order is the one documented next to the suite table (AES-GCM hardware: the four ECDHE AES-GCM suites, the two ECDHE ChaCha20 suites, then the table: ECDHE CBC, RSA AES-GCM, RSA CBC, 3DES; without the hardware ChaCha20 first; TLS 1.3: AES-128-GCM, ChaCha20, AES-256-GCM resp. ChaCha20 first), transcribed in defaults.go and never read from zcrypto; a client with CipherSuites=nil must offer exactly that list in that order (TLS 1.2-only suites left out below TLS 1.2)",
+			"exact suite prediction TLS<=1.2: explicit list of the preferring side; server default list under PreferServerCipherSuites=true: the documented order with the AES-GCM suites moved behind the neighbouring ChaCha20 suites iff the ClientHello's first suite is not an AES-GCM suite, the relative order of everything else preserved (both orders accepted when that first suite is an AES-GCM suite without ECDHE or is outside the exported lists); client default list under client preference: the order of the ClientHello on the wire; no verdict on an AES-GCM-vs-ChaCha20 choice under client preference on a machine without (or with unknown) AES-GCM hardware; with several chains the rule is judged among the suites usable with the chain presented",
+			"second opinion on the server default order: the ClientHello recorded on the wire is replayed to a GOROOT crypto/tls server with the same leaf key, version range, curves and the same 16 suites enabled (crypto/tls always selects by its own documented table, which orders the suites usable with one key type like zcrypto's default list); where it negotiates the same version and knows the first suite of the ClientHello the selected suite must be equal; single-chain servers, first connection, no MITM; non-comparable cases are counted",
+			"TLS 1.3 suite: first suite of the preferring side's list the other side supports - the client's order as read from the ClientHello on the wire, or the server's explicit CipherSuites order - after the documented AES-GCM reordering (server preference: the ClientHello does not start with an AES-GCM suite; client preference: this machine lacks AES+CLMUL instructions, read from golang.org/x/sys/cpu); a server without a TLS 1.3 suite in its list uses the documented default TLS 1.3 order",
 			"several chains: completion is demanded when some chain fits a common suite (below TLS 1.3 an ECDSA chain counts strictly only if its curve is in both CurvePreferences, RFC 8422 §5.3); the chain presented must be a configured one, fit the suite and the client's signature_algorithms, and be the first compatible chain (Config.Certificates doc) unless an earlier chain fits loosely only",
 			"the (EC)DHE group is read from the ServerKeyExchange named_curve / the ServerHello and HelloRetryRequest key_share and must lie in both CurvePreferences lists (default list {X25519,P-256,P-384,P-521}); which common group is not demanded",
 			"Ed25519 server keys below TLS 1.2 and disjoint non-empty ALPN lists: both completion and failure accepted",
@@ -480,7 +485,7 @@ func main() {
 		c.States.Add(ran.Load())
 		c.Set("configurations_total", len(cfgs))
 		if !complete {
-			c.Incomplete(fmt.Sprintf("time budget hit after %d of %d configurations (parts are enumerated in order 1,1b,2,3,4,5,6,7,8)", ran.Load(), len(cfgs)))
+			c.Incomplete(fmt.Sprintf("time budget hit after %d of %d configurations (parts are enumerated in order 1,1b,2,3,4,5,6,7,8,9)", ran.Load(), len(cfgs)))
 		}
 	})
 }
